@@ -270,6 +270,11 @@ func makeErr(f model.Fault, k model.CallKey) error {
 	case "group":
 		var es ggql.Errors
 		for i := 0; i < f.N; i++ {
+			if i == 2 {
+				// the same error VALUE a second time (a sentinel of the application reported for two items): two members
+				es = append(es, es[0])
+				continue
+			}
 			es = append(es, fmt.Errorf("%w #%d in group at node %d field %s", ErrInjected, i, k.Node, k.Field))
 		}
 		return es
@@ -277,6 +282,11 @@ func makeErr(f model.Fault, k model.CallKey) error {
 		// a group of errors handed up with context wrapped around it: still one entry per member
 		var es ggql.Errors
 		for i := 0; i < f.N; i++ {
+			if i == 1 {
+				// a member that wraps an earlier member (the same cause met again further down) is a member of its own
+				es = append(es, fmt.Errorf("again for the next item: %w", es[0]))
+				continue
+			}
 			es = append(es, fmt.Errorf("%w #%d in wrapped group at node %d field %s", ErrInjected, i, k.Node, k.Field))
 		}
 		return fmt.Errorf("loading batch: %w", es)
